@@ -9,7 +9,9 @@ def vm(profile, qn, tn, extra=None):
     return {"kind": "vm", "profile": profile, "extra": extra or [],
             "quick": {"n": qn, "shards": 16}, "thorough": {"n": tn, "shards": 16}}
 
-VM_ENGINES = [vm("ops", 16000, 320000), vm("structured", 16000, 320000), vm("raw", 16000, 320000)]
+VM_ENGINES = [vm("ops", 16000, 320000), vm("structured", 16000, 320000), vm("raw", 16000, 320000), vm("calls", 16000, 320000)]
+VM_ASSUME = ["outside the Lean interpreter model (cases reaching them are skipped by the comparison, monitors still run): CREATE/CREATE2, native/precompile addresses (<= 0xff), any use of an address destroyed earlier in the same transaction, call nesting deeper than 8",
+             "DataStackMaxDepth = 0 and the 16 MiB memory provider, as x/cvm/keeper configures the VM"]
 VM_TRUST = ["modelled, not verified: Go runtime (big.Int, slices, allocation limits), Burrow acmstate cache/Sync, golang.org/x/crypto/sha3",
             "the VM engine runs /repo/vm on an in-memory Burrow state with the keeper's storage convention; the keeper, the message path and the SDK gas meter are covered by the chain engine"]
 
@@ -21,9 +23,36 @@ GOV = {"engines": [chain("gov", 160, 1600, ops=100)], "trusted": SDK_TRUST + ["t
 BANKVM = {"trusted": SDK_TRUST + ["contract behaviour at chain level is modelled for a fixed library of hand-assembled programs (harness/sim/gen_bankvm.go); arbitrary programs are covered by the VM engine"],
           "assumptions": ["SDK 0.42.4 does not persist vesting delegation tracking (DelegateCoins/trackDelegation omits SetAccount): observed, reproduced by the model, not part of the repository"]}
 
+SHIELD = {"engines": [chain("shield", 128, 1280, ops=160, tops=240)],
+          "trusted": SDK_TRUST + ["the staking module is an observed input: the bonded stake the staking hooks recompute for a provider is read from the observed post-state; unbonding delegations (their delay by claims and payouts taken from them) are not modelled",
+                                  "governance's tally of a claim is validated by the C12 monitors; the shield model takes the observed outcome of a claim (paid / rejected / vetoed) as input"],
+          "assumptions": ["shield and governance parameters are constant along a history", "withdraw period >= protection period >= claim lock (two voting periods), the module's stated design assumption (keeper/collateral.go); 21 days / 21 days / 4 days by default",
+                          "only the bond denomination is used for shield, fees and losses", "genesis LastUpdateTime is the chain's start time (DefaultGenesisState stamps the wall clock)"]}
+
 PROPS = {
+    "C02": dict(SHIELD, lean=[]),
+    "C03": dict(SHIELD, lean=[]),
+    "C04": dict(SHIELD, lean=[]),
+    "C05": dict(SHIELD, lean=[]),
+    "C06": dict(SHIELD, lean=[]),
+    "C07": dict(SHIELD, lean=[]),
+    "C16": {
+        "lean": ["Shentu.Props.C16"],
+        "drivers": ["vmdriver"],
+        "engines": VM_ENGINES,
+        "trusted": VM_TRUST + ["Shentu.Gen.EVM is regenerated from vm/contract.go by the translator; the refinement theorems are stated about the regenerated definitions"],
+        "assumptions": VM_ASSUME + ["the specification side of the comparison is the interpreter model with every recorded deviation switched off (Quirks.spec); gas, GAS/GASLIMIT-dependent programs and out-of-gas runs are not compared (gas accounting may differ)"],
+    },
+    "C17": {
+        "lean": ["Shentu.Props.C17", "Shentu.Props.C18vm"],
+        "drivers": ["vmdriver"],
+        "engines": VM_ENGINES,
+        "trusted": VM_TRUST,
+        "assumptions": VM_ASSUME,
+    },
     "C01": dict(BANKVM, lean=["Shentu.Props.C01"], engines=[chain("bankvm", 96, 960, ops=100), chain("gov", 48, 480, ops=100), chain("oracle", 48, 480)]),
-    "C18": dict(BANKVM, lean=["Shentu.Props.C18"], engines=[chain("bankvm", 160, 1600, ops=100)]),
+    "C18": dict(BANKVM, lean=["Shentu.Props.C18", "Shentu.Props.C18vm"], drivers=["chaindriver", "vmdriver"],
+                engines=[chain("bankvm", 160, 1600, ops=100), vm("calls", 16000, 320000)]),
     "C19": dict(BANKVM, lean=["Shentu.Props.C19"], engines=[chain("bankvm", 160, 1600, ops=100)]),
     "C11": dict(GOV, lean=["Shentu.Props.C11"]),
     "C12": dict(GOV, lean=["Shentu.Props.C12"]),
